@@ -177,17 +177,20 @@ def body(run):
         src = (40 + 1.75 * yy + 3.0 * xx + 0.25 * (fz.texture(rng, g.src_shape, 1)[0] % 2)).astype('float32')[None]
         pair = fz.make_pair(run.work, g, rng, src=src, smask=sm, rmask=rm, tag='m')
         exp = None if unaligned else expected_mask(pair, g, on_ref, kshape)
+        # "completely covered by valid source pixels" does not depend on the kernel the DATA are down-sampled with: on aligned geometries every
+        # other case uses nearest (a completely covered pixel is valid under either; the partial mask must be the same)
+        ds_kernel = 'average' if unaligned else ['average', 'nearest'][(k // 3) % 2]
         masks = []
         # (for the tie geometries several block sizes: whether a block boundary falls on a tie depends on the block shape)
         for target in ((1, rng.choice([4, 9, 16])) if not (unaligned and k % 2 == 1) else (1, 4, 9, 16, 25)):
             try:
                 mbm, nblk = fz.pick_block_mem(pair['src_fn'], pair['ref_fn'], 'auto', target, kshape)
                 res = fz.fuse(pair['src_fn'], pair['ref_fn'], run.work / 'mp.tif', model=model, kernel_shape=kshape, proc_crs='auto', max_block_mem=mbm,
-                              param=False, model_config=dict(mask_partial=True, r2_inpaint_thresh=None))
+                              param=False, model_config=dict(mask_partial=True, r2_inpaint_thresh=None, downsampling=ds_kernel))
             except Exception as ex:
                 dist['skipped:' + type(ex).__name__] = dist.get('skipped:' + type(ex).__name__, 0) + 1
                 continue
-            desc = dict(geom=g.describe(), kernel_shape=list(kshape), model=model, processing_grid=res['proc_crs'], blocks=nblk, max_block_mem=mbm)
+            desc = dict(geom=g.describe(), kernel_shape=list(kshape), model=model, processing_grid=res['proc_crs'], blocks=nblk, max_block_mem=mbm, downsampling=ds_kernel)
             key = f'{res["proc_crs"]}{"-unaligned" if unaligned else ""}/blocks={"1" if nblk == 1 else ">1"}'
             dist[key] = dist.get(key, 0) + 1
             run.count_case((k, target), True, desc if len(run.cov['samples']) < 5 else None)
